@@ -202,7 +202,7 @@ fn oracle() -> SeqOracle {
     })
 }
 
-fn spec(ctx: &Ctx, shards: usize) -> SeqSpec {
+fn spec(ctx: &Ctx, shards: usize, fn_weight: i64) -> SeqSpec {
     let quick = ctx.quick();
     let mut alphabet: Vec<Op> = vec![
         Op::Put { k: 1, w: None, ttl_ms: None },
@@ -211,6 +211,8 @@ fn spec(ctx: &Ctx, shards: usize) -> SeqSpec {
         Op::Put { k: 1, w: Some(3), ttl_ms: Some(1500) },
         // expiry exactly reachable by the clock steps (1000 + 1000, or 2000): the boundary instant
         Op::Put { k: 1, w: Some(2), ttl_ms: Some(2000) },
+        // a time-to-live of zero: the key expires at the instant it is stored
+        Op::Put { k: 1, w: Some(2), ttl_ms: Some(0) },
         // heavier than the whole cache (W = 5): on a readable key the answer is still "key already exists"
         Op::Put { k: 1, w: Some(6), ttl_ms: None },
         Op::ProbedPut { k: 1, w: Some(3), ttl_ms: None },
@@ -232,8 +234,10 @@ fn spec(ctx: &Ctx, shards: usize) -> SeqSpec {
         alphabet.push(Op::Upsert { k: 1, value: true, w: None, ttl_ms: None, remove_ttl: true });
     }
     SeqSpec {
-        name: format!("seq/put-in-every-life-cycle-state/shards{}", shards),
-        setup: Setup { weight: 5, shards, buffer: 64, weight_fn: WeightFn::Const { c: 2, ttl_extra: 0 }, ..Setup::default() },
+        // fn_weight = what the configured weight function gives every pair; 9 is heavier than the whole cache (W = 5), so
+        // puts without an explicit weight are "too heavy" - unless the key is readable, then they are "already exists"
+        name: format!("seq/put-in-every-life-cycle-state/shards{}{}", shards, if fn_weight == 2 { String::new() } else { format!("/weight-fn={}", fn_weight) }),
+        setup: Setup { weight: 5, shards, buffer: 64, weight_fn: WeightFn::Const { c: fn_weight, ttl_extra: 0 }, ..Setup::default() },
         world: Default::default(),
         prefix: vec![],
         alphabet,
@@ -252,9 +256,9 @@ fn spec(ctx: &Ctx, shards: usize) -> SeqSpec {
 
 pub fn def(ctx: &Ctx) -> PropertyDef {
     let mut scenarios: Vec<Scenario> = Vec::new();
-    for shards in [2usize, 4] {
-        let name = spec(ctx, shards).name;
-        scenarios.push(seq_scenario(move |c| spec(c, shards), &name));
+    for (shards, fn_weight) in [(2usize, 2i64), (4, 2), (2, 9)] {
+        let name = spec(ctx, shards, fn_weight).name;
+        scenarios.push(seq_scenario(move |c| spec(c, shards, fn_weight), &name));
     }
     let quick = ctx.quick();
     let workers = ctx.workers;
